@@ -205,11 +205,11 @@ class Ctx:
         self.log("TLC %s: %d generated, %d distinct, %.1fs" % (module, r.generated, r.distinct, r.wall))
         return r
 
-    def tlc_gen(self, spec_dir, module, cfg=None, consts=None, workers=8, timeout=1800, tag="CASE", sim=None):
+    def tlc_gen(self, spec_dir, module, cfg=None, consts=None, workers=8, timeout=1800, tag="CASE", sim=None, env=None):
         """Run a *_Gen module: returns the list of JSON cases it printed. Invariants of the
         generator module (design-level statements) must hold, else tool error."""
         cfg_text = self.cfg(spec_dir, cfg or (module + ".cfg"), consts)
-        r = self._tlc(spec_dir, module, cfg_text, workers, timeout, sim=sim)
+        r = self._tlc(spec_dir, module, cfg_text, workers, timeout, sim=sim, env=env)
         if r.violated or r.error:
             self._dump(module + ".tlc.out", r.out)
             raise ToolError("generator %s: violated=%s error=%s (see %s)" % (module, r.violated, r.error, self.work))
